@@ -97,8 +97,16 @@ def run_valid(el, lib, tmp, viol, c, label):
             c['valid_also_serialised_with_intelligent_choice'] += 1
             d2 = docs.infoset_diff(copy.deepcopy(el), ET.fromstring(s2[1]), lenient_ws=True, limit=4)
             if d2:
-                viol.append({'sig': {'kind': 'infoset-differs', 'type': ref.eltype(el.tag), 'intelligent_choice': 'on',
-                                     'what': d2[0][1], 'at': d2[0][0].split('/')[-1]},
+                d0 = d2[0]
+                sig2 = {'kind': 'infoset-differs', 'type': ref.eltype(el.tag), 'intelligent_choice': 'on',
+                        'what': d0[1], 'at': d0[0].split('/')[-1]}
+                if d0[1] in ('text', 'attribute-value'):
+                    # the same value-level mechanisms as on the default path (numeric spelling, stripped blanks ...) are keyed
+                    # by mechanism, not by where they show up
+                    cause = docs.diff_cause(*((d0[2], d0[3]) if d0[1] == 'text' else (d0[3], d0[4])), lenient=True)
+                    if cause:
+                        sig2 = {'kind': 'infoset-differs', 'cause': cause, 'what': d0[1]}
+                viol.append({'sig': sig2,
                              'case': {'text': docs.to_text(el), 'label': label, 'half': 'valid', 'ic': True},
                              'detail': {'diff': [list(map(str, x)) for x in d2[:3]]}})
                 return 'violated'
